@@ -42,23 +42,27 @@ RULE = ('cases are drawn from the quantifier of C10: (fit) data files of 1..12 l
         'ineligible sources with at least one eligible, n_data_min in 0..n_filters+1, all six selector forms, '
         'output_convolved yes/no, file ending at EOF (with / without newline) or at a blank line; (rw) 1..5 '
         'arbitrary records incl. NaN/inf chi2 written and read back, partly sharing objects that are mutated between the writes (compared with snapshots taken at write time); (hist) sequences of <=3 post-processing '
-        'calls with different selectors on results passed as file / object / list.  A fit case is non-trivial '
+        'calls (all seven consumers incl. plot_params_1d/2d; additional=; filter_output chi= / cpd=) with different selectors on results passed as file / object / list; fit cases use distance-independent, distance-dependent and cube packages (wavelength-type filters), data as path or open file.  A fit case is non-trivial '
         'when it holds at least one ineligible line or more than one record; a hist case when at least one call '
         'cuts a record (k < n_fits); distinct = distinct canonical hash of the generated case')
 REQUIRED_BRANCHES = ['ineligible_skipped', 'all_eligible', 'nmin_zero', 'conv_yes', 'conv_no',
                      'sel_A', 'sel_N', 'sel_C', 'sel_D', 'sel_E', 'sel_F',
                      'end_eof_newline', 'end_eof_no_newline', 'end_blank_line',
                      'record_zero_fits', 'singular_source_fitted',
+                     'pkg_indep', 'pkg_dep', 'pkg_cube', 'filter_by_wavelength', 'data_path', 'data_handle',
                      'rw_nan', 'rw_inf', 'rw_zero_fits', 'rw_fluxes', 'rw_no_fluxes',
                      'rw_share_source_buffer', 'rw_share_same_info_keep', 'rw_share_array_inplace',
                      'form_file', 'form_obj', 'form_list',
-                     'op_wp', 'op_wr', 'op_ex', 'op_pl', 'op_pc', 'op_fo',
+                     'op_wp', 'op_wr', 'op_ex', 'op_pl', 'op_pc', 'op_p1', 'op_p2', 'op_fo', 'op_fc', 'additional',
                      'keep_cuts', 'filter_good', 'filter_bad', 'mem_from_fit', 'mem_from_read', 'seq_len3']
-ASSUMPTIONS = ['pickle is not modelled: the Lean read-back theorem assumes the two codec laws (load(dump(x)+rest) = '
-               '(x, rest); load at end of stream = EOFError); the correspondence observes them on every case',
-               'the heap model has one level (object -> field values): a shallow copy is a fresh object holding the '
-               'same field values; in-place writes into shared numpy arrays are not expressible in the model and '
-               'are covered only by the digests the harness takes of every array after every call',
+ASSUMPTIONS = ['pickle\'s byte encoding is not modelled: the Lean read-back theorems assume the two codec laws '
+               '(load(dump(s)+rest) = (s, rest); load at end of stream = EOFError) for STATES only; the repo\'s own '
+               '__getstate__/__setstate__ of FitInfo / Source / Extinction are modelled and proved to round-trip '
+               '(C10_state_roundtrip*); the correspondence observes the byte level on every case',
+               'the heap model has two levels (object -> attribute references -> cells): a shallow copy is a fresh '
+               'object pointing at the caller\'s own cells, keep() rebinds views and writes nothing; the theorem holds for '
+               'the ops the repo has and is false for an op that writes in place (negative control); that no consumer '
+               'writes in place is observed by the digests the harness takes of every array after every call',
                'post-processing outputs go to fresh paths (never onto the input file)',
                'data lines after a blank line are outside the quantifier (the blank line is the last line)',
                'history selectors are reduced for the model to "keep the first k rows" with k computed by the '
@@ -67,9 +71,9 @@ EXHAUSTIVE = {'quick': False, 'thorough': True}
 TRUSTED_EXTRA = ['CPython pickle (protocol 2) round trip of FitInfo / Source / Extinction / Quantity objects',
                  'matplotlib LineCollection as the carrier of plot(output_dir=None) output']
 
-N_FIT = {'quick': 70, 'thorough': 900}
+N_FIT = {'quick': 60, 'thorough': 900}
 N_RW = {'quick': 25, 'thorough': 300}
-N_HIST = {'quick': 24, 'thorough': 120}
+N_HIST = {'quick': 18, 'thorough': 120}
 N_SEQ = {'quick': 9, 'thorough': 14}
 SEL_FORMS = ['A', 'N', 'C', 'D', 'E', 'F']
 ENDINGS = ['eof_newline', 'eof_no_newline', 'blank_line', 'spaces_line']
@@ -79,7 +83,10 @@ SHARES = ['source_buffer', 'same_info_keep', 'array_inplace']
 
 # ----------------------------------------------------------------------------- generation
 
-def gen_pkg(rng):
+def gen_pkg(rng, variant='indep'):
+    """variant: 'indep' distance-independent version-1 package (convolved files, one aperture);
+    'dep' distance-dependent version-1 package (convolved files tabulated at several apertures);
+    'cube' version-2 package (flux.fits) fitted at bare wavelengths (filters given as Quantity)"""
     nm = rng.randint(2, 5)
     nb = rng.randint(3, 5)
     wavs = set()
@@ -101,8 +108,27 @@ def gen_pkg(rng):
     d1 = nice(rng, 0.1, 5., 2)
     dist = [d1, round(d1 * rng.uniform(1.2, 4.), 2)]
     aps = [nice(rng, 0.5, 20., 2) for _ in range(nb)]
-    return dict(names=names, wavs=wavs, tab_w=tw, tab_chi=chi, models=models, table_order=order,
-                par1=par1, par2=par2, av=av, dist=dist, aps=aps)
+    pkg = dict(names=names, wavs=wavs, tab_w=tw, tab_chi=chi, models=models, table_order=order,
+               par1=par1, par2=par2, av=av, dist=dist, aps=aps, variant=variant)
+    if variant == 'dep':
+        # apertures (AU) bracketing aperture["] x distance[pc] for every filter and distance
+        pkg['ap_au'] = [1., 1e3, 3e4, 1e7][:rng.choice([3, 4])] if rng.random() < 0.5 else [0.5, 2e2, 1e8]
+        pkg['ap_gain'] = [round(1. + 0.3 * a + rng.uniform(0, 0.2), 2) for a in range(len(pkg['ap_au']))]
+        pkg['logd_step'] = rng.choice([0.05, 0.1, 0.2])
+        if rng.random() < 0.2:
+            pkg['dist'] = [d1, d1]
+    if variant == 'cube':
+        cw = sorted(set(wavs) | {nice(rng, 0.2, 200., 3) for _ in range(rng.randint(1, 4))})
+        if rng.random() < 0.5:
+            cw = cw[::-1]
+        pkg['cube_wav'] = cw
+        # the cube holds the model fluxes at the filters' wavelengths and arbitrary values elsewhere
+        pkg['cube_val'] = [[[models[i][wavs.index(w)] if w in wavs else nice(rng, 1e-2, 1e3, 4) for w in cw]]
+                           for i in range(nm)]
+        # wavelengths asked for: slightly off the cube's own (nearest-wavelength look-up)
+        pkg['ask_wav'] = [float('%.4g' % (w * rng.choice([1., 1., 1.002, 0.999]))) for w in wavs]
+        pkg['named'] = [rng.random() < 0.25 for _ in wavs]    # some filters by name (convolved file), the rest by wavelength
+    return pkg
 
 
 def gen_source(rng, pkg, idx, n_data):
@@ -153,7 +179,7 @@ def gen_selector(rng, form=None, nm=4):
 
 def gen_fit_case(rng, directed=None):
     directed = directed or {}
-    pkg = gen_pkg(rng)
+    pkg = gen_pkg(rng, directed.get('variant') or rng.choice(['indep', 'indep', 'dep', 'cube']))
     nb = len(pkg['wavs'])
     nl = directed.get('n_lines') or rng.randint(1, 12)
     n_min = directed['n_min'] if 'n_min' in directed else rng.choice([0, 1, 2, 3, 3, 3, nb - 1, nb, nb + 1])
@@ -175,7 +201,8 @@ def gen_fit_case(rng, directed=None):
     sel = directed.get('sel') or gen_selector(rng, nm=len(pkg['models']))
     return dict(kind='fit', pkg=pkg, sources=sources, n_min=n_min, sel=sel,
                 conv=directed['conv'] if 'conv' in directed else rng.random() < 0.5,
-                ending=directed.get('ending') or rng.choice(ENDINGS))
+                ending=directed.get('ending') or rng.choice(ENDINGS),
+                data_as=directed.get('data_as') or rng.choice(['path', 'path', 'handle']))
 
 
 def _sp(x):
@@ -255,15 +282,26 @@ def gen_hist_case(rng, tier, directed=None):
     if conv:
         # the results carry the predicted fluxes: plot(show_convolved=True) reads them
         alphabet += [['pc', sels[1]]] if 'first' in directed else [['pc', s] for s in sels]
+    pp = directed['pp'] if 'pp' in directed else ('first' not in directed and not directed and rng.random() < 0.04)
+    if 'first' not in directed:
+        alphabet += [['fc', nice(rng, 0.5, 3e3, 2)]]           # filter_output(cpd=...)
     case = dict(kind='hist', pkg=pkg, sources=sources, out_sel=out_sel, conv=conv,
-                mem_from=directed.get('mem_from') or rng.choice(['fit', 'read']), alphabet=alphabet)
+                mem_from=directed.get('mem_from') or rng.choice(['fit', 'read']), alphabet=alphabet,
+                additional=directed['additional'] if 'additional' in directed else rng.random() < 0.3)
     if 'first' in directed:
         case['exhaustive_first'] = directed['first']
+    elif pp:
+        # plot_params_1d / plot_params_2d write one figure per source (slow): a few short sequences only
+        n0 = len(alphabet)
+        alphabet += [['p1', sels[0]], ['p1', sels[1]], ['p2', sels[1]], ['p2', sels[2]]]
+        case['seqs'] = [[n0, n0 + 3, 1], [0, n0 + 1, 12]]
+        case['pp'] = True
     else:
         seqs = [[0, 11], [0, 5, 8], [3, 0, 3], [12, 9, 2], [6, 13, 7]][:5]   # cut-then-wider directed sequences
         if conv:
             seqs += [[15, 12], [14, 16, 13], [16, 15, 1]]   # convolved-flux plot, then something that reads the fluxes again
-        while len(seqs) < N_SEQ[tier] + (3 if conv else 0):
+        seqs += [[len(alphabet) - 1], [0, len(alphabet) - 1, 12]]      # cpd threshold
+        while len(seqs) < N_SEQ[tier] + (5 if conv else 2):
             seqs.append([rng.randrange(len(alphabet)) for _ in range(rng.choice([1, 2, 3, 3]))])
         case['seqs'] = seqs
     return case
@@ -276,7 +314,13 @@ def gen_cases(seed, tier):
                      for j, gen_sel in enumerate([['A', 0], ['N', 2], ['C', 30.], ['D', 50.], ['E', 8.], ['F', 6.]])] +
                     [dict(n_min=0), dict(all_eligible=True, n_min=2), dict(n_lines=1, n_min=3, all_eligible=True),
                      dict(n_lines=12, n_min=3, force_ineligible=True), dict(sel=['C', 1e-6], n_min=2, all_eligible=True),
-                     dict(n_min=1, n_lines=5, force_singular=True), dict(n_min=0, n_lines=8, sel=['A', 0], force_singular=True)])
+                     dict(n_min=1, n_lines=5, force_singular=True), dict(n_min=0, n_lines=8, sel=['A', 0], force_singular=True),
+                     dict(variant='dep', n_min=3, data_as='handle', conv=True), dict(variant='dep', n_min=2, sel=['N', 3], conv=False),
+                     dict(variant='cube', n_min=3, data_as='path', conv=True), dict(variant='cube', n_min=2, sel=['F', 9.], data_as='handle'),
+                     dict(variant='indep', n_min=3, data_as='handle')])
+    for dsp in directed_fit:
+        dsp.setdefault('variant', 'indep')
+        dsp.setdefault('data_as', 'path')
     for dsp in directed_fit:
         yield gen_fit_case(case_rng(seed, PID, i), dsp)
         i += 1
@@ -289,7 +333,9 @@ def gen_cases(seed, tier):
     for dsp in [dict(k=1, mem_from='fit', out_sel=['A', 0], thrs=[1e-9, 1e12], conv=True),
                 dict(k=3, mem_from='read', out_sel=['A', 0], conv=True),
                 dict(k=1, mem_from='read', out_sel=['N', 2], conv=False),
-                dict(k=2, mem_from='fit', out_sel=['A', 0], thrs=[1e-9, 1e12], conv=False)]:
+                dict(k=2, mem_from='fit', out_sel=['A', 0], thrs=[1e-9, 1e12], conv=False, additional=True),
+                dict(k=1, mem_from='fit', out_sel=['A', 0], conv=True, pp=True, additional=False),
+                dict(k=2, mem_from='read', out_sel=['A', 0], conv=False, pp=True, additional=True)]:
         yield gen_hist_case(case_rng(seed, PID, i), tier, dsp)
         i += 1
     # thorough, exhaustive: all sequences of length <= 3 over the 15-call alphabet, one case per first call,
@@ -318,11 +364,18 @@ def gen_cases(seed, tier):
 # ----------------------------------------------------------------------------- building inputs
 
 def build_pkg(pkg, d, full):
-    """distance-independent version-1 package: models.conf + convolved/*.fits (+ seds/ and parameters.fits)"""
+    """model package of the case: models.conf + convolved/*.fits (+ seds/ and parameters.fits when `full`),
+    or flux.fits for the cube variant.  Returns (filter specification for fit()/Fitter, extinction law)."""
+    from astropy import units as u
     names = pkg['names']
     nm = len(names)
     nb = len(pkg['wavs'])
-    if full:
+    variant = pkg.get('variant', 'indep')
+    if variant == 'cube':
+        pk.write_cube_package(d, names, pkg['cube_wav'], pkg['cube_val'], np.array(pkg['cube_val']) * 0.1,
+                              apertures_au=None, params={'PAR1': pkg['par1'], 'PAR2': pkg['par2']},
+                              aperture_dependent=False)
+    elif full:
         swav = sorted({0.05, 500.} | set(pkg['wavs']))
         sflux = [[[pkg['models'][i][pkg['wavs'].index(w)] if w in pkg['wavs'] else pkg['models'][i][0] for w in swav]]
                  for i in range(nm)]
@@ -331,15 +384,35 @@ def build_pkg(pkg, d, full):
                              params={'PAR1': [pkg['par1'][j] for j in pkg['table_order']],
                                      'PAR2': [pkg['par2'][j] for j in pkg['table_order']]},
                              aperture_dependent=False)
+    elif variant == 'dep':
+        pk.write_conf(d, aperture_dependent=True, logd_step=pkg['logd_step'])
     else:
         pk.write_conf(d, aperture_dependent=False)
     fnames = []
     for j, w in enumerate(pkg['wavs']):
         fn = 'B%d' % j
+        if variant == 'cube' and not pkg['named'][j]:
+            fnames.append(pkg['ask_wav'][j] * u.micron)       # wavelength-type filter
+            continue
         fnames.append(fn)
-        pk.write_convolved(d, fn, w, names, [[pkg['models'][i][j]] for i in range(nm)], [[0.] for _ in range(nm)])
+        if variant == 'dep':
+            pk.write_convolved(d, fn, w, names, [[pkg['models'][i][j] * g for g in pkg['ap_gain']] for i in range(nm)],
+                               [[0.] * len(pkg['ap_au']) for _ in range(nm)], apertures_au=pkg['ap_au'])
+        else:
+            pk.write_convolved(d, fn, w, names, [[pkg['models'][i][j]] for i in range(nm)], [[0.] for _ in range(nm)])
     ext = pk.make_extinction(pkg['tab_w'], pkg['tab_chi'])
     return fnames, ext
+
+
+def make_expected_fitter(pkg, d, fnames, ext):
+    """the object interface with the settings fit() uses (its Fitter default `use_memmap=True` matters for
+    version-2 packages only: model fluxes are then held in float32)"""
+    from astropy import units as u
+    from sedfitter.fit import Fitter
+    with common.quiet():
+        return Fitter(fnames, np.array(pkg['aps'], dtype=float) * u.arcsec, d, extinction_law=ext,
+                      av_range=tuple(pkg['av']), distance_range=np.array(pkg['dist'], dtype=float) * u.kpc,
+                      use_memmap=(pkg.get('variant') == 'cube'))
 
 
 def source_line(s):
@@ -353,9 +426,12 @@ def write_data(path, lines, ending):
         f.write(text)
 
 
-def run_fit(pkg, d, fnames, ext, data, out, n_min, sel, conv):
+def run_fit(pkg, d, fnames, ext, data, out, n_min, sel, conv, data_as='path'):
     import sedfitter
     from astropy import units as u
+    if data_as == 'handle':
+        with open(data, 'r') as fh:
+            return run_fit(pkg, d, fnames, ext, fh, out, n_min, sel, conv)
     with common.quiet():
         sedfitter.fit(data, fnames, np.array(pkg['aps'], dtype=float) * u.arcsec, d, out, n_data_min=n_min,
                       extinction_law=ext, av_range=tuple(pkg['av']),
@@ -413,17 +489,49 @@ def diff_meta(meta, model_dir, fnames, aps, wavs, tab_w, tab_chi):
     if len(fl) != len(fnames):
         return 'meta.filters has %d entries, expected %d' % (len(fl), len(fnames))
     for f, n, a, w in zip(fl, fnames, aps, wavs):
-        if f.get('name') != n:
-            return 'filter name %r != %r' % (f.get('name'), n)
+        if isinstance(n, str):
+            if f.get('name') != n:
+                return 'filter name %r != %r' % (f.get('name'), n)
+            if not common.close(f['wav'].to(u.micron).value, w, 1e-12):
+                return 'filter wavelength %r != %r micron' % (f['wav'], w)
+        else:
+            # wavelength-type filter: no name, and the Quantity that was passed in
+            if 'name' in f:
+                return 'wavelength-type filter came back with a name: %r' % (f,)
+            if not (isinstance(f.get('wav'), u.Quantity) and f['wav'].unit == n.unit and float(f['wav'].value) == float(n.value)):
+                return 'filter wavelength %r != %r' % (f.get('wav'), n)
         if float(f['aperture_arcsec']) != float(a):
             return 'filter aperture %r != %r' % (f['aperture_arcsec'], a)
-        if not common.close(f['wav'].to(u.micron).value, w, 1e-12):
-            return 'filter wavelength %r != %r micron' % (f['wav'], w)
     law = meta.extinction_law
     if not same_array(law.wav.to(u.micron).value, np.array(tab_w, dtype=float)):
         return 'extinction wav %r != %r' % (law.wav, tab_w)
     if not same_array(law.chi.to(u.cm ** 2 / u.g).value, np.array(tab_chi, dtype=float)):
         return 'extinction chi %r != %r' % (law.chi, tab_chi)
+    return None
+
+
+def meta_diff_by_value(a, b):
+    """first difference between two FitInfoMeta objects compared BY VALUE (not identity), or None"""
+    if a.model_dir != b.model_dir:
+        return 'model_dir %r != %r' % (a.model_dir, b.model_dir)
+    if len(a.filters) != len(b.filters):
+        return 'number of filters %d != %d' % (len(a.filters), len(b.filters))
+    for fa, fb in zip(a.filters, b.filters):
+        if sorted(fa.keys()) != sorted(fb.keys()):
+            return 'filter keys %r != %r' % (sorted(fa.keys()), sorted(fb.keys()))
+        for k in fa:
+            va, vb = fa[k], fb[k]
+            ua, ub = str(getattr(va, 'unit', '')), str(getattr(vb, 'unit', ''))
+            if k == 'name':
+                same = va == vb
+            else:
+                same = ua == ub and float(getattr(va, 'value', va)) == float(getattr(vb, 'value', vb))
+            if not same:
+                return 'filter[%s] %r != %r' % (k, va, vb)
+    for f in ('wav', 'chi'):
+        qa, qb = getattr(a.extinction_law, f), getattr(b.extinction_law, f)
+        if str(qa.unit) != str(qb.unit) or not same_array(qa.value, qb.value):
+            return 'extinction_law.%s %r != %r' % (f, qa, qb)
     return None
 
 
@@ -479,14 +587,14 @@ def run_fit_case(case, use_model=True):
                               key=common.canon_hash(case))
         # ---- implementation
         try:
-            run_fit(pkg, d, fnames, ext, data, out, n_min, sel, conv)
+            run_fit(pkg, d, fnames, ext, data, out, n_min, sel, conv, data_as=case.get('data_as', 'path'))
             meta, recs = read_fit_file(out)
         except Exception as e:
             return CaseResult(False, violates=True, branches=branches,
                               detail='fit()/FitInfoFile raised %s: %s on %d lines, n_data=%r, n_data_min=%d, selector=%r'
                                      % (type(e).__name__, e, len(lines), nds, n_min, sel))
         # ---- the property's right-hand side: object interface on the same lines
-        fitter = pk.make_fitter(d, fnames, pkg['aps'], ext, pkg['av'], pkg['dist'], use_memmap=False)
+        fitter = make_expected_fitter(pkg, d, fnames, ext)
         exp = []
         for i in elig:
             s = Source.from_ascii(lines[i])
@@ -515,8 +623,10 @@ def run_fit_case(case, use_model=True):
         if dm:
             return CaseResult(False, violates=True, branches=branches, detail='metadata read back changed: ' + dm)
         for r in recs:
-            if r.meta is not meta:
-                return CaseResult(False, violates=True, branches=branches, detail='a record does not carry the shared metadata')
+            dmv = meta_diff_by_value(r.meta, meta)
+            if dmv:
+                return CaseResult(False, violates=True, branches=branches,
+                                  detail='record %s does not carry the shared metadata: %s' % (r.source.name, dmv))
         # ---- model
         if use_model:
             toks = [str(n) for n in nds]
@@ -539,7 +649,11 @@ def run_fit_case(case, use_model=True):
             branches.add('record_zero_fits')
         if any(nds[i] < 2 for i in elig):
             branches.add('singular_source_fitted')
-        sample = dict(kind='fit', n_lines=len(nds), n_data=nds, n_data_min=n_min, selector=sel, output_convolved=conv,
+        branches.add('pkg_' + pkg.get('variant', 'indep'))
+        if any(not isinstance(f, str) for f in fnames):
+            branches.add('filter_by_wavelength')
+        branches.add('data_' + case.get('data_as', 'path'))
+        sample = dict(kind='fit', package=pkg.get('variant', 'indep'), data_as=case.get('data_as', 'path'), n_lines=len(nds), n_data=nds, n_data_min=n_min, selector=sel, output_convolved=conv,
                       ending=case['ending'], records=got_names, n_fits=[int(r.n_fits) for r in recs])
         return CaseResult(True, branches=branches, key=common.canon_hash(case),
                           nontrivial=(len(elig) < len(nds) or len(elig) > 1), sample=sample)
@@ -768,17 +882,18 @@ def canon_rec(info):
     return [info.source.name, [str(n).strip() for n in np.asarray(info.model_name).tolist()], hh.hexdigest()]
 
 
-def do_call(call, inp, workdir, tag):
+def do_call(call, inp, workdir, tag, additional=None):
     """run one post-processing call; returns (canonical output for cross-form comparison,
-    view = list of (source name, model names or None, n_rows) for the model, or ('x', exception name))"""
+    view = list of (source name, model names or None, n_rows or None) for the model, or ('x', exception name))"""
     import sedfitter
     op, arg = call
+    add = {} if additional is None else additional
     try:
         with common.quiet():
             if op in ('wp', 'wr'):
                 path = os.path.join(workdir, '%s_%s.txt' % (op, tag))
                 fn = sedfitter.write_parameters if op == 'wp' else sedfitter.write_parameter_ranges
-                fn(inp, path, select_format=(arg[0], arg[1]))
+                fn(inp, path, select_format=(arg[0], arg[1]), additional=add)
                 text = open(path).read()
                 return text, (parse_wp(text) if op == 'wp' else parse_wr(text))
             if op == 'ex':
@@ -799,10 +914,26 @@ def do_call(call, inp, workdir, tag):
                     canon[name] = [len(segs), hh.hexdigest()]
                     view.append((name, None, len(segs)))
                 return canon, ('dict', view)
-            if op == 'fo':
+            if op in ('p1', 'p2'):
+                # always a fresh output directory (io.create_dir prompts when it exists)
+                sub = os.path.join(workdir, '%s_%s' % (op, tag))
+                if op == 'p1':
+                    sedfitter.plot_params_1d(inp, 'PAR1', output_dir=sub, select_format=(arg[0], arg[1]), log_x=True,
+                                             additional=add, format='png', dpi=30, bins=8)
+                else:
+                    sedfitter.plot_params_2d(inp, 'PAR1', 'PAR2', output_dir=sub, select_format=(arg[0], arg[1]),
+                                             log_x=True, log_y=True, format='png', dpi=30)
+                files = sorted(os.listdir(sub))
+                empty = [f for f in files if os.path.getsize(os.path.join(sub, f)) == 0]
+                canon = [files, empty]
+                return canon, ('dict', [(f[:-4], None, None) for f in files if f.endswith('.png') and f not in empty])
+            if op in ('fo', 'fc'):
                 g = os.path.join(workdir, 'good_%s' % tag)
                 b = os.path.join(workdir, 'bad_%s' % tag)
-                sedfitter.filter_output(inp, output_good=g, output_bad=b, chi=float(arg))
+                if op == 'fo':
+                    sedfitter.filter_output(inp, output_good=g, output_bad=b, chi=float(arg))
+                else:
+                    sedfitter.filter_output(inp, output_good=g, output_bad=b, cpd=float(arg))
                 rg = read_fit_file(g)[1]
                 rb = read_fit_file(b)[1]
                 canon = [[canon_rec(r) for r in rg], [canon_rec(r) for r in rb]]
@@ -842,14 +973,15 @@ def parse_ex(files):
 
 
 def model_history(objs, calls):
-    """driver `history` in copy mode.  objs: [(n_rows, best)], calls: [(op, arg, input tokens)]"""
+    """driver `history` in copy mode (two-level heap: objects -> attribute cells).
+    objs: [(n_rows, best chi2, best chi2 per data point)], calls: [(op, arg, input tokens)]"""
     line = ['history', 'copy', str(len(objs))]
-    for n, b in objs:
-        line += [str(n), rat(b)]
+    for n, b, c in objs:
+        line += [str(n), rat(b), rat(c)]
     line.append(str(len(calls)))
     for op, arg, inp in calls:
         line.append(op)
-        if op == 'fo':
+        if op in ('fo', 'fc'):
             line.append(rat(arg))
         else:
             line += [str(len(arg))] + [str(k) for k in arg]
@@ -881,6 +1013,14 @@ def model_history(objs, calls):
     for _ in range(n):
         k = t.tok()
         heap.append(None if k == '-1' else [t.nat() for _ in range(int(k))])
+    if t.tok() != 'cells':
+        raise common.DriverError('history: expected cells')
+    cells_same = t.nat()
+    if t.tok() != 'objs':
+        raise common.DriverError('history: expected objs')
+    objs_same = t.nat()
+    if not (cells_same and objs_same):
+        heap = ('changed', cells_same, objs_same, heap)     # the model itself saw the caller's arrays / objects change
     return outs, heap
 
 
@@ -909,7 +1049,7 @@ def view_matches(view, mout, objs_names, src_index):
             ent = sorted(ent, key=lambda e: e[0])
             mviews = sorted(mviews, key=lambda e: e[0])
         for (i, rows, n), (mi, mrows) in zip(ent, mviews):
-            if i != mi or n != len(mrows) or (rows is not None and rows != mrows):
+            if i != mi or (n is not None and n != len(mrows)) or (rows is not None and rows != mrows):
                 return False
         return True
     if view[0] == 'split':
@@ -967,10 +1107,16 @@ def run_hist_case(case, use_model=True):
         nds = [int(o.source.n_data) for o in objs]
         obj_names = [[str(n).strip() for n in np.asarray(o.model_name).tolist()] for o in objs]
         src_index = {o.source.name: i for i, o in enumerate(objs)}
-        mobjs = [(len(c), float(c[0]) if len(c) else 0.) for c in chi2s]
+        # best chi2 and best chi2 per data point, the latter with filter_output's own arithmetic (one float division)
+        mobjs = [(len(c), float(c[0]) if len(c) else 0., float(c[0]) / float(nd) if len(c) else 0.)
+                 for c, nd in zip(chi2s, nds)]
+        additional = None
+        if case.get('additional'):
+            additional = {'EXTRA': {n: float(j) + 0.5 for j, n in enumerate(pkg['names'])}}
+            branches.add('additional')
         # groups of records and the forms they are handed over in
         groups = [list(range(k))]
-        if k > 1:
+        if k > 1 and not case.get('pp'):      # (figure-writing cases: the whole result only; obj form comes from k = 1)
             groups.append([0])
         single = os.path.join(d, 'single.fitinfo')
         if k > 1:
@@ -999,7 +1145,7 @@ def run_hist_case(case, use_model=True):
                     os.makedirs(work)
                     outs, views = [], []
                     for ci, call in enumerate(calls):
-                        canon, view = do_call(call, inp, work, '%d' % ci)
+                        canon, view = do_call(call, inp, work, '%d' % ci, additional)
                         n_calls += 1
                         outs.append(canon)
                         views.append(view)
@@ -1029,14 +1175,14 @@ def run_hist_case(case, use_model=True):
                 # ---- an exception is only expected from filter_output on a record without fits
                 for ci, call in enumerate(calls):
                     v = results[ref_name][1][ci]
-                    if v[0] == 'x' and not (call[0] == 'fo' and v[1] == 'IndexError' and any(mobjs[i][0] == 0 for i in g)):
+                    if v[0] == 'x' and not (call[0] in ('fo', 'fc') and v[1] == 'IndexError' and any(mobjs[i][0] == 0 for i in g)):
                         return CaseResult(False, violates=True, branches=branches,
                                           detail='call %d (%r) of sequence %r raised %s: %s (all input forms alike)' % (ci, call, calls, v[1], v[2]))
                 # ---- model
                 mcalls = []
                 for call in calls:
-                    if call[0] == 'fo':
-                        mcalls.append(('fo', call[1], None))
+                    if call[0] in ('fo', 'fc'):
+                        mcalls.append((call[0], call[1], None))
                     else:
                         ks = [n_keep(call[1], chi2s[i], nds[i]) for i in range(k)]
                         if any(ks[i] < len(chi2s[i]) for i in g):
@@ -1046,7 +1192,7 @@ def run_hist_case(case, use_model=True):
                 if use_model:
                     for fname, _, mtoks in forms:
                         mouts, mheap = model_history(mobjs, [(op, arg, mtoks) for op, arg, _ in mcalls])
-                        if mheap != [list(range(n)) for n, _ in mobjs]:
+                        if mheap != [list(range(m[0])) for m in mobjs]:
                             return CaseResult(False, branches=branches, detail='model heap after %r: %r' % (calls, mheap))
                         for ci, call in enumerate(calls):
                             if not view_matches(results[fname][1][ci], mouts[ci], obj_names, src_index):
